@@ -819,3 +819,47 @@ func ZZC07BigBulk() {
 		}
 	}
 }
+
+// ZZC06Lagging: requests go through the leader's public API (the real RaftNode.AddBulk builds
+// and proposes the command); a follower is away for some of them and catches up later from the
+// leader's log, which holds the very byte slices the leader proposed (Raft keeps proposed
+// entries by reference in its log cache and replicates from there).
+func ZZC06Lagging() {
+	c := zzNewCluster(2)
+	leader := c.nodes[0]
+	n := 2 + rt.Choose("requests", rt.Param("REQUESTS", 2))
+	awayFrom := 1 + rt.Choose("follower-away-from", n-1)
+	var issued []*balloon.Snapshot
+	var digs []hashing.Digest
+	for k := 0; k < n; k++ {
+		if k == awayFrom {
+			c.down[1] = true
+		}
+		m := 1 + rt.Choose(fmt.Sprintf("bulk%d", k), rt.Param("BULK", 2))
+		snaps, err := zzAddBulk(leader, zzEvents(byte(0x10+k), m))
+		if err != nil || len(snaps) != m {
+			rt.Assert(false, "add-acknowledged")
+			return
+		}
+		issued = append(issued, snaps...)
+		for i := 0; i < m; i++ {
+			digs = append(digs, leader.hasherF().Do(zzEvents(byte(0x10+k), m)[i]))
+		}
+	}
+	// the follower comes back and is sent the entries it missed
+	c.down[1] = false
+	for _, e := range c.log {
+		if e.index > c.stores[1].Covered || natively() {
+			ent := e
+			if !rt.NoPanic(func() { c.deliver(1, ent) }, "follower-catches-up") {
+				return
+			}
+		}
+	}
+	rt.Assert(c.nodes[1].balloon.Version() == leader.balloon.Version(), "same-version")
+	zzTablesEqual(c.stores[0], c.stores[1], "lagging-follower")
+	zzProofsVerify(c.nodes[1], issued, digs, "lagging-follower")
+}
+
+// natively the follower has its own idle Raft and sees no entry but those delivered here
+func natively() bool { return !rt.Symbolic() }
